@@ -23,7 +23,7 @@ func init() {
 	planTable["C09"] = mk("core,reset", "at least one event subscription was released before the final teardown and the end-of-run leak check ran")
 	planTable["C04"] = mk("access", "data was handed to a client as the requested resource at least once (oracle C04.a) in a run in which a revocation trigger (token event on a connection with a token, reaccess event, access reset) was delivered")
 	planTable["C05"] = mk("access", "at least one call/new/auth request was judged (oracle C05.a) in a run in which a revocation trigger was delivered")
-	planTable["C06"] = mk("access,reset", "at least one revocation trigger was delivered while a client held a settled direct subscription it affects (oracle C06.a evaluated)")
+	planTable["C06"] = mk("access,reset,query", "at least one revocation trigger was delivered while a client held a settled direct subscription it affects (oracle C06.a evaluated)")
 	planTable["C10"] = mk("access", "a token reset was delivered, or at least two token events were")
 	planTable["C12"] = mk("reset,throttle", "at least one get request was identified with certainty as a system-reset re-fetch and checked against the delivered resets")
 	planTable["C13"] = mk("query", "at least one query event was delivered while a settled direct subscriber held a cached query variant, so that a query request for it was demanded")
